@@ -157,6 +157,9 @@ class SignalBuffer:
 
         with self._lock:
             samples = data.shape[-1]
+            if samples == 0:
+                # Nothing to add (`[..., :-0]` below would select nothing)
+                return
             if samples > self._buffer_samples:
                 self._buffer[..., :] = data[..., -self._buffer_samples:]
                 self._ilb = 0
